@@ -63,6 +63,7 @@ public:
 	~Exec();
 	void run();
 	RunResult res;
+	const std::map<std::string, std::string> &disk() const { return world.files; }   // debugging aid (QSIM_DUMP_DIR)
 	std::string transcript;          // kept only when trace is on (hash is always computed)
 private:
 	const Plan &plan; bool trace; World world; Fnv th; int step = 0; const Op *op = 0; int next_uid = 1;
